@@ -2232,5 +2232,71 @@ theorem validate_spAssign_ok_iff (key : List KeyEntry) (rhs : List Nat) :
   rw [spAssignGo_ok_iff]
   simp
 
+/-! ### argument forms (second mutation study) -/
+
+theorem validate_ttvM_ok_iff (a : TtvMArgs) : validate_ttvM a = .ok () ↔ Pre_ttvM a := by
+  unfold validate_ttvM Pre_ttvM
+  cases hd : dimscheck19 a.shape.length (some a.vshapes.length) a.dims a.excl with
+  | error e =>
+    simp only [error_ne_ok, false_iff]
+    rintro ⟨hp, _⟩
+    have := (dimscheck19_ok_iff _ _ _ _ _).2 ⟨hp, rfl⟩
+    rw [hd] at this; cases this
+  | ok r =>
+    obtain ⟨hp, rfl⟩ := (dimscheck19_ok_iff _ _ _ _ _).1 hd
+    simp only [rejectIf_ok, Bool.not_eq_false', Option.map_some, all_pairs_iff, beq_iff_eq, hp, true_and]
+
+theorem validate_khatriraoND_ok_iff (shapes : List (List Nat)) (rev : Bool) :
+    validate_khatriraoND shapes rev = .ok () ↔ Pre_khatriraoND shapes := by
+  unfold validate_khatriraoND Pre_khatriraoND
+  have hall : ((if rev then shapes.reverse else shapes).all fun s => s.length == 2) = true ↔
+      ∀ s ∈ shapes, s.length = 2 := by
+    cases rev <;> simp [List.all_eq_true]
+  by_cases h : ∀ s ∈ shapes, s.length = 2
+  · rw [if_neg (by rw [hall.2 h]; simp), validate_khatrirao_ok_iff]
+    exact ⟨fun hk => ⟨h, hk⟩, fun hk => hk.2⟩
+  · have hf : ((if rev then shapes.reverse else shapes).all fun s => s.length == 2) = false := by
+      rw [Bool.eq_false_iff]; exact fun hh => h (hall.1 hh)
+    rw [if_pos (by rw [hf]; rfl)]
+    simp only [error_ne_ok, false_iff]
+    exact fun hk => h hk.1
+
+theorem validate_sptensorGiven_ok_iff (subs vals : Bool) :
+    validate_sptensorGiven subs vals = .ok () ↔ Pre_sptensorGiven subs vals := by
+  cases subs <;> cases vals <;> simp [validate_sptensorGiven, Pre_sptensorGiven, rejectIf]
+
+theorem validate_sptenmatGiven_ok_iff (subs vals dims : Bool) :
+    validate_sptenmatGiven subs vals dims = .ok () ↔ Pre_sptenmatGiven subs vals dims := by
+  cases subs <;> cases vals <;> cases dims <;> simp [validate_sptenmatGiven, Pre_sptenmatGiven, rejectIf]
+
+theorem validate_isVector_ok_iff (s : List Nat) : validate_isVector s = .ok () ↔ Pre_isVector s := by
+  unfold validate_isVector Pre_isVector
+  simp only [rejectIf_ok, Bool.not_eq_false', Bool.or_eq_true, Bool.and_eq_true, beq_iff_eq]
+
+theorem validate_shapeArray_ok_iff (s : List Nat) : validate_shapeArray s = .ok () ↔ Pre_shapeArray s := by
+  unfold validate_shapeArray Pre_shapeArray
+  simp
+
+
+theorem validate_tenfunArity_ok_iff (nargs others : Nat) :
+    validate_tenfunArity nargs others = .ok () ↔ Pre_tenfunArity nargs others := by
+  unfold validate_tenfunArity Pre_tenfunArity
+  by_cases h : others = 1 ∧ nargs = 2
+  · rw [if_pos (by simp [h.1, h.2])]
+    simp [h.1, h.2]
+  · rw [if_neg (by simpa using h)]
+    simp only [rejectIf_ok, bne_eq_false_iff_eq]
+    constructor
+    · exact fun h1 => Or.inl h1
+    · rintro (h1 | ⟨h2, h3⟩)
+      · exact h1
+      · exact absurd ⟨h3, h2⟩ h
+
+theorem validate_setSubsWidth_ok_iff (N width : Nat) :
+    validate_setSubsWidth N width = .ok () ↔ Pre_setSubsWidth N width := by
+  unfold validate_setSubsWidth Pre_setSubsWidth
+  simp
+
+
 end V19
 end Pyttb
